@@ -262,23 +262,29 @@ namespace Ledger
 
 /-- **C17, rejecting leaves nothing behind.**  In the ownership-ledger model of the (repaired)
 clean-up code of `s3file_get_1d/_2d/_3d`, `tmat_init_s3file`, `gauden_param_read` +
-`gauden_init_s3file` and `feat_read_lda_s3file`: whatever stage the function fails at, every
+`gauden_init_s3file`, `feat_read_lda_s3file`, `bin_mdef_read_s3file` (both byte orders) and
+`ptm_mgau_init_s3file` (sendump and mixture-weight branches): whatever stage the function fails at, every
 object it allocated is freed exactly once (no leak, no double free, no free of something not
 allocated) except what it has handed to its caller, and `feat->lda` is never left dangling; on
-success exactly the result objects are live.  (The ledgers are transcribed by hand from the C
-clean-up code; LeakSanitizer/ASan observe the real code at every reject site the fault
-enumeration reaches.  `ptm_mgau_init_s3file`, `bin_mdef_read_s3file` are not covered.) -/
+success exactly the result objects are live.  (The ledgers are transcribed from the C clean-up
+code at the granularity of the `ckd_*` entry points and *tied*: the harness intercepts those entry
+points (`-Wl,--wrap`), and for every case of stage A the recorded allocation trace, abstracted to
+`file:left-hand side` names, must equal the ledger of the stage the model reaches — order of
+releases included.) -/
 theorem C17_reject_leaves_clean :
     (∀ s, s ≠ ArrStage.ok → clean (get1d false s) [] = true ∧ clean (get2d false s) [] = true ∧
         clean (get3d false s) [] = true) ∧
     clean (get1d false .ok) [0] = true ∧ clean (get2d false .ok) [0, 1] = true ∧
-    clean (get3d false .ok) [0, 1, 2] = true ∧
+    clean (get3d false .ok) [0, 1] = true ∧
     (∀ s, s ≠ TmatStage.ok → clean (tmat false s) [] = true) ∧ clean (tmat false .ok) [0, 1] = true ∧
     (∀ s, s ≠ GauStage.ok → clean (gauden s) [] = true) ∧
     clean (gauden .ok) [0, 10, 11, 12, 21, 22, 30] = true ∧
     (∀ old s, s ≠ LdaStage.array .ok → (lda false old s).2 = false ∧
-      clean (lda false old s).1 (match s with | .ok => [0, 1, 2] | .dims => [0, 1, 2] | .header => if old then [9] else [] | _ => []) = true) := by
-  refine ⟨?_, by decide, by decide, by decide, ?_, by decide, ?_, by decide, ?_⟩
+      clean (lda false old s).1 (match s with | .ok => [0, 1] | .dims => [0, 1] | .header => if old then [9] else [] | _ => []) = true) ∧
+    (∀ swap s, s ≠ MdefStage.ok → clean (mdef swap s) [] = true) ∧ (∀ swap, clean (mdef swap .ok) (mdefKeep swap) = true) ∧
+    (∀ s, s ≠ PtmStage.okSd → s ≠ PtmStage.okMx → clean (ptm s) [] = true) ∧
+    clean (ptm .okSd) ptmKeep = true ∧ clean (ptm .okMx) ptmKeep = true := by
+  refine ⟨?_, by decide, by decide, by decide, ?_, by decide, ?_, by decide, ?_, ?_, ?_, ?_, by decide, by decide⟩
   · intro s hs; cases s <;> first | exact absurd rfl hs | decide
   · intro s hs; cases s <;> first | exact absurd rfl hs | decide
   · intro s hs
@@ -291,6 +297,11 @@ theorem C17_reject_leaves_clean :
     cases old <;> cases s with
     | array a => cases a <;> first | exact absurd rfl hs | decide
     | _ => decide
+  · intro swap s hs
+    cases swap <;> cases s <;> first | exact absurd rfl hs | decide
+  · intro swap; cases swap <;> decide
+  · intro s h1 h2
+    cases s <;> first | exact absurd rfl h1 | exact absurd rfl h2 | decide
 
 /-- non-vacuity: the ledger check does see the defects of the pinned clean-up code — the double
 free of `tp` after a checksum failure, the leak of `*buf` on a short read (D19b) and the dangling
